@@ -326,12 +326,18 @@ Exec(s, i, idx) ==
     [] i.cls = "int"      -> ExecInt(s, i)
     [] i.cls = "print"    -> ExecPrint(s, i)
     [] i.cls = "string"   -> ExecString(s, i)
+    \* text that is no instruction: a reported error, nothing changes (C19: whatever came before)
+    [] i.cls = "invalid"  -> Res(s.regs, s.flags, 0, NoWrites, s.stack, {<<"ERR", 0>>})
 
 \* Where the manual admits two readings (DAA/DAS, DESIGN.md 7.4) every reading is a result
 ExecAlts(s, i, idx) ==
   IF i.cls = "adjust" /\ i.op \in {"daa", "das"}
   THEN {AdjustRes(s, r) : r \in AdjustAlts(i.op, s.regs["ax"], s.regs["dx"], s.flags)}
   ELSE {Exec(s, i, idx)}
+
+\* a new machine: everything zero except FLAGS = F000h and CS = FFFFh (C19)
+FreshRegs == [n \in RegNames |-> IF n = "cs" THEN 65535 ELSE 0]
+FreshFlags == 61440
 
 (***************************************************************************)
 (* Post-state predicates used by model checking and trace validation       *)
